@@ -37,7 +37,7 @@ func init() {
 	})
 	register(&Property{
 		ID: "C18",
-		Explanation: "Decides the guards that confine restore to the target for every snapshot content and every pre-existing state: (name-guards) in the tree walk, every call that receives the child path (enterDir, the recursion, leaveDir, visitNode) is reachable only on the edges Base(Join(sep, node.Name)) == node.Name (the name is a single, rooted-and-cleaned component), target != nodeTarget and fs.HasPathPrefix(target, nodeTarget); (dir-not-symlink) ensureDir — the only creator of directories below the target — reaches MkdirAll from its Lstat only on 'does not exist', 'IsDir() is true' or after removing the foreign object, so a pre-existing symlink to an outside directory is never descended into; (nofollow) every fs.OpenFile of package restorer carries O_NOFOLLOW and a file re-created after removing an obstacle is opened with O_EXCL; (delete-guard) --delete calls RemoveAll only for Join(target, entry) that passed the same prefix tests, is not in the snapshot's directory listing, is selected by the filter, not in dry-run, with the directory listed under O_NOFOLLOW; (unique-names) a node reaches the visitor callbacks or the recursion only if its name sorts strictly after the last accepted name of the directory, which is updated on the same path — two nodes with one name let a symlink replace the directory restored for the other and its children were restored through the link (genuine defect, demonstrated, fixed); (ancestors-ensured) the induction that no component below the target is a foreign symlink: the first pass ensures the parent before it registers a node and ensures a directory when it enters it, and the walk descends only after the pass's enterDir ran — the last step fails on the pinned tree for directories the filter does not select (restore --include /a/b/f writes through a pre-existing symlink target/a; demonstrated) and is reported as KNOWN-FINDING. Not decided: races with a concurrent process that modifies the target during the restore.",
+		Explanation: "Decides the guards that confine restore to the target for every snapshot content and every pre-existing state: (name-guards) in the tree walk, every call that receives the child path (enterDir, the recursion, leaveDir, visitNode) is reachable only on the edges Base(Join(sep, node.Name)) == node.Name (the name is a single, rooted-and-cleaned component), target != nodeTarget and fs.HasPathPrefix(target, nodeTarget); (dir-not-symlink) ensureDir — the only creator of directories below the target — reaches MkdirAll from its Lstat only on 'does not exist', 'IsDir() is true' or after removing the foreign object, so a pre-existing symlink to an outside directory is never descended into; (nofollow) every fs.OpenFile of package restorer carries O_NOFOLLOW and a file re-created after removing an obstacle is opened with O_EXCL; (delete-guard) --delete calls RemoveAll only for Join(target, entry) that passed the same prefix tests, is not in the snapshot's directory listing, is selected by the filter, not in dry-run, with the directory listed under O_NOFOLLOW; (unique-names; the remembered name is taken only from accepted nodes — added after a seeded change that let a rejected node in between reset the comparison) a node reaches the visitor callbacks or the recursion only if its name sorts strictly after the last accepted name of the directory, which is updated on the same path — two nodes with one name let a symlink replace the directory restored for the other and its children were restored through the link (genuine defect, demonstrated, fixed); (ancestors-ensured) the induction that no component below the target is a foreign symlink: the first pass ensures the parent before it registers a node and ensures a directory when it enters it, and the walk descends only after the pass's enterDir ran — the last step fails on the pinned tree for directories the filter does not select (restore --include /a/b/f writes through a pre-existing symlink target/a; demonstrated) and is reported as KNOWN-FINDING. Not decided: races with a concurrent process that modifies the target during the restore.",
 		Assumptions: append([]string{"filepath.Join/Base/Clean and fs.HasPathPrefix behave as documented", "O_NOFOLLOW/O_EXCL are honoured by the operating system"}, commonAssumptions...),
 		Technique:   "static analysis: CFG edge cuts on every use of the child path, flag-constant checks at all open sites (go/ssa)",
 		AllConfigs:  true,
@@ -50,6 +50,8 @@ func init() {
 			ruleAncestorsEnsured(c)
 		},
 		Controls: []Control{
+			{Name: "last-name-remembers-rejected-nodes", File: "internal/restorer/restorer.go",
+				Old: "			// force disable deletion to prevent unexpected behavior\n			res.opts.Delete = false\n			continue\n		}\n		lastName = node.Name\n", New: "			// force disable deletion to prevent unexpected behavior\n			res.opts.Delete = false\n			lastName = node.Name\n			continue\n		}\n		lastName = node.Name\n", Rule: "unique-names"},
 			{Name: "accept-equal-names", File: "internal/restorer/restorer.go",
 				Old: "		if node.Name <= lastName {", New: "		if node.Name < lastName {", Rule: "unique-names"},
 			{Name: "forget-last-name", File: "internal/restorer/restorer.go",
